@@ -449,6 +449,7 @@ class GdbSim:
                         g.Frame('wl_display_disconnect', {}))
         info['kind'] = 'destroy'
         info['addr'] = addr
+        self.rec.add('close', info.get('what'))
         return self.hit('wl_connection_destroy', frame, thread, info)
 
     # ------------------------------------------------------------------ the inferior
@@ -467,6 +468,13 @@ class GdbSim:
             if k == 'tick':
                 self.clock.now_us += it[1]
                 self.world.now = self.clock.now_us
+            elif k == 'thread_exit':
+                # a (non-main) thread of the inferior exits: gdb.InferiorThread objects taken from it go invalid, the next
+                # thread in that role gets a fresh global number
+                if it[1] >= 2:
+                    self.state.thread_gen[it[1]] = self.state.thread_gen.get(it[1], 0) + 1
+                    self.rec.add('thread-exit', it[1])
+                    self.bump('fault_thread_exited')
             elif k == 'act':
                 slot = self.slots[it[1] % len(self.slots)]
                 if slot.conn is None:
